@@ -371,7 +371,8 @@ V("C14", "first-unused-license-decides", "F", "R1", RPT,
   "        self._is_compliant = not any(", "        if self.unused_licenses and next(iter(self.unused_licenses)).startswith('LicenseRef-'):\n            return True\n        self._is_compliant = not any(")
 V("C14", "imap-unordered", "F", "R2", RPT, "            results: Iterable[_MultiprocessingResult] = pool.map(\n                container, files\n            )", "            results: Iterable[_MultiprocessingResult] = list(pool.imap_unordered(\n                container, files\n            ))")
 V("C14", "first-toml-wins", "F", "R1", PRJ, "        tomls = [ReuseTOML.from_file(item.path) for item in found]\n", "        tomls = [ReuseTOML.from_file(item.path) for item in found]\n        if found[0].path.name != 'REUSE.toml':\n            tomls = tomls[:1]\n")
-V("C14", "bom-sections-unsorted", "F", "R1", RPT, "reports = sorted(self.file_reports, key=lambda x: x.name)", "reports = list(self.file_reports)")
+# the ORDER of entries is outside C14 ('identical up to ordering of entries'): an unsorted document is not a violation
+V("C14", "bom-sections-unsorted", "S", "", RPT, "reports = sorted(self.file_reports, key=lambda x: x.name)", "reports = list(self.file_reports)")
 V("C14", "concluded-without-simplify", "F", "R1", RPT, "                .simplify()\n                .render()", "                .render()")
 V("C14", "regex-from-set", "F", "R1", R + "vcs.py", "        return path in self._all_ignored_files\n\n    def is_submodule(self, path: StrPath) -> bool:\n        return any(",
   "        import re as _re\n        if _re.match('|'.join(str(p) for p in self._all_ignored_files), str(path)):\n            return True\n        return path in self._all_ignored_files\n\n    def is_submodule(self, path: StrPath) -> bool:\n        return any(")
